@@ -15,6 +15,7 @@ tt = None
 def setup(ctx):
     global tt
     tt = arm_tt(ctx)
+    gen.LAYOUT = 0.15
     gen.ALIAS = 0.12
     gen.PROV = 0.25  # a quarter of the generated operands come with a history of library operations (gen.provenance)
 
